@@ -163,10 +163,3 @@ Theorem C04_cell_write_allowed_iff :
 Proof. exact cell_write_allowed_iff. Qed.
 Print Assumptions C04_cell_write_allowed_iff.
 
-(* observed: unsync_load / with_mut do not advance the clock (they are not synchronisation operations) *)
-Theorem C04_unsync_access_keeps_clock :
-  forall (e : exec) (me a : nat) (e' : exec),
-       exec_micro e me (MUnsyncLoad a) = MOk e' -> caus_of e' me = caus_of e me.
-Proof. exact unsync_access_keeps_clock. Qed.
-Print Assumptions C04_unsync_access_keeps_clock.
-
